@@ -67,10 +67,10 @@ def gen_options(rnd):
     o["strategy_name"] = s
     o["strategy"] = {"none": None, "always": FileSync.always, "never": FileSync.never, "update": FileSync.update,
                      "custom": (lambda src, dst, fn: fn.endswith("1.txt"))}[s]
-    d = rnd.choice(["default", "bykey_fn", "bykey_re", "update", "NO_SYNC", "COPY"])
+    d = rnd.choice(["default", "bykey_fn", "bykey_re", "update", "NO_SYNC", "COPY", "custom_update"])
     o["doc_sync_name"] = d
     o["doc_sync"] = {"default": None, "bykey_fn": DocSync.ByKey(lambda k: k.startswith("k1")), "bykey_re": DocSync.ByKey("k2"), "update": DocSync.update,
-                     "NO_SYNC": DocSync.NO_SYNC, "COPY": DocSync.COPY}[d]
+                     "NO_SYNC": DocSync.NO_SYNC, "COPY": DocSync.COPY, "custom_update": (lambda src, dst: dst.update(src))}[d]     # a caller's own strategy using the mapping interface
     o["recursive"] = rnd.random() < 0.6
     o["exclude"] = rnd.choice([None, None, r"keep\.bak", r"f2"])
     o["deep"] = rnd.random() < 0.4
@@ -91,7 +91,7 @@ def ref_doc_merge(o, src, dst, root=""):
     d = o["doc_sync_name"]
     if d in ("NO_SYNC", "COPY"):
         return copy.deepcopy(dst), []
-    if d == "update":
+    if d in ("update", "custom_update"):
         out = copy.deepcopy(dst)
         out.update(copy.deepcopy(src))
         return out, []
@@ -378,6 +378,6 @@ def run_focus(focus, tier, seed, budget):
     return {"evaluations": evals, "distinct_nontrivial": len(distinct), "failures": failures, "samples": samples,
             "rule": "a case is one (project pair, option set) scenario; distinct by option signature",
             "scope": "project pairs over 4 state points (present in src / dst / both / none), 6 file names incl. nested directories, 3 contents, explicit mtimes, documents with flat / nested / "
-                     "mixed-type conflicts; options: strategy in {None, always, never, update, custom}, doc_sync in {ByKey(), ByKey(fn), ByKey(regex), update, NO_SYNC, COPY}, recursive, exclude, "
+                     "mixed-type conflicts; options: strategy in {None, always, never, update, custom}, doc_sync in {ByKey(), ByKey(fn), ByKey(regex), update, a custom dst.update(src), NO_SYNC, COPY}, recursive, exclude, "
                      "deep, selection, dry_run (C15); checks: source unchanged, superset, destination-only data unchanged, overwrite iff strategy, roll-back on DocumentSyncConflict, idempotence, dry run changes nothing; C15: every second successful scenario is repeated on an identically built pair with parallel=2 and parallel=True "
                      f"and must leave the sequential destination tree ({PARALLEL_STATS['pairs_compared']} comparisons in this run)"}
